@@ -48,10 +48,12 @@ pub enum Mod {
     Wide,
     /// the builder's setters are called in the reverse order
     SettersReversed,
+    /// the sessions predict with PredictDefault and the players follow the sparse input program
+    PredictDefault,
 }
 
 pub const CORE_MENU: &[Mod] = &[Mod::Wide, Mod::SettersReversed, Mod::Desync(1), Mod::NoChecksum, Mod::InputStyle(2), Mod::Undrained, Mod::InputStyle(3), Mod::Desync(3), Mod::UnevenTicks, Mod::InputStyle(1)];
-pub const NET_MENU: &[Mod] = &[Mod::Wide, Mod::SettersReversed, Mod::Desync(1), Mod::NoChecksum, Mod::InputStyle(2), Mod::InputStyle(3), Mod::Desync(3), Mod::InputStyle(1)];
+pub const NET_MENU: &[Mod] = &[Mod::Wide, Mod::SettersReversed, Mod::PredictDefault, Mod::Desync(1), Mod::NoChecksum, Mod::InputStyle(2), Mod::InputStyle(3), Mod::Desync(3), Mod::InputStyle(1)];
 
 fn apply_mod(s: &Scenario, m: Mod) -> Option<Scenario> {
     let mut x = s.clone();
@@ -80,6 +82,13 @@ fn apply_mod(s: &Scenario, m: Mod) -> Option<Scenario> {
                 return None;
             }
             x.peers.iter_mut().for_each(|p| p.input_style = st);
+        }
+        Mod::PredictDefault => {
+            if s.pred == crate::types::Pred::Default {
+                return None;
+            }
+            x.pred = crate::types::Pred::Default;
+            x.program = crate::types::Program::Sparse;
         }
         Mod::SettersReversed => {
             if s.peers.iter().any(|p| p.builder_order != 0) {
